@@ -1450,6 +1450,35 @@ pub mod verif {
         /// `data[2]` the shared node count, `data[3]` the collector state,
         /// `data[4]` the number of shared free lists
         pub const ALLOC_GC_FLUSH: u32 = 42;
+        /// Dynamic terminal manager of the index-based manager, `get_edge`
+        /// (state locked): the terminal is stored under the ID `data[0]`,
+        /// `data[1]` is the hash of the value; the reference count increment
+        /// (`TERM_RETAIN`) follows
+        pub const TERM_GET_FOUND: u32 = 19;
+        /// `get_edge` (state locked): the terminal was not stored and has
+        /// been inserted with the ID `data[0]` (taken from the free list,
+        /// reference count 2), `data[1]` is the hash of the value
+        pub const TERM_GET_NEW: u32 = 20;
+        /// `get_edge` (state locked): the terminal with hash `data[0]` is not
+        /// stored and there is no free slot
+        pub const TERM_GET_OOM: u32 = 21;
+        /// The reference count of the terminal `data[0]` has been incremented
+        pub const TERM_RETAIN: u32 = 22;
+        /// The reference count of the terminal `data[0]` is about to be
+        /// decremented
+        pub const TERM_RELEASE: u32 = 23;
+        /// `gc` of the dynamic terminal manager starts (state locked)
+        pub const TERM_GC_BEGIN: u32 = 24;
+        /// `gc` removes the terminal `data[0]` and pushes its slot onto the
+        /// free list (state locked)
+        pub const TERM_GC_REMOVE: u32 = 25;
+        /// `gc` of the dynamic terminal manager is done, `data[0]` terminals
+        /// were removed (state locked)
+        pub const TERM_GC_END: u32 = 26;
+        /// The terminal iterator (state locked) is about to yield the
+        /// terminal `data[0]`; the reference count increment (`TERM_RETAIN`)
+        /// follows
+        pub const TERM_ITER: u32 = 27;
     }
 
     /// Callback type: hook site and event data
